@@ -122,7 +122,8 @@ impl<'a> GenRec<'a> {
     }
     pub fn new_gen(&mut self, g: usize) {
         self.slot(g);
-        self.gens[g] = Some(Generator::new());
+        // both ways of making one (new / Default), alternating
+        self.gens[g] = Some(if self.sh.units % 2 == 0 { Generator::new() } else { Generator::default() });
         self.fed[g].clear();
         self.sh.emit(&format!("{{\"ev\":\"new\",\"g\":{}}}", g));
     }
